@@ -18,7 +18,38 @@ _COMPONENTS_MCACHE = {
     "stub": ["nothing of pymoca; the C compiler of codegen mode is not interleaved (cache mode only)"],
 }
 
+_COMPONENTS_AST = {
+    "real": ["pymoca parser, ast, tree.flatten, CasADi / SymPy / XML generators, tools.compiler from the working tree"],
+    "simulated": ["the callers / owners of trees and the order of their requests and edits"],
+    "stub": [],
+}
+
 CHECKS = {
+    "C05": {
+        "engine": "flatten_hist",
+        "level": "exploration",
+        "rule": "Request histories (flatten, CasADi generate with 4 option sets, SymPy generate, XML generate) on one shared "
+                "parsed tree, every request compared with the same request on a fresh copy of the parse: sweep = every class "
+                "of every library (own pool + every test model) in three fixed shapes (each twice, all then reversed, "
+                "backends mixed in), seeded = 2-10 random requests, cli = tools.compiler.main with 2-3 -m requests in both "
+                "orders against the single requests. distinct_nontrivial = distinct (library, multiset of classes "
+                "requested before, class, operation) with a non-empty history.",
+        "assumptions": ["no fault dimension exists for this property; the simulated parties are the callers sharing a tree",
+                        "a request that fails on a fresh parse only has to fail on the shared tree too"],
+        "components": _COMPONENTS_AST,
+    },
+    "C06": {
+        "engine": "copy_hist",
+        "level": "exploration",
+        "rule": "Forests of trees created by copy.deepcopy (copies of copies up to depth 3) whose owners interleave "
+                "add/remove symbol/equation/class edits; after every edit the edited class, a class reaching it through a "
+                "component type and one through extends are flattened (via a throw-away deep copy, and via the SymPy/XML "
+                "backends, and directly as the last use) on the edited tree (edit visible) and on another tree (invisible) "
+                "and compared with a fresh parse + replayed edit log. distinct_nontrivial = distinct (library, copy depth, "
+                "edit kind, relation, visible/invisible).",
+        "assumptions": ["no fault dimension exists for this property", "libraries: own pool + 12 multi-class test models"],
+        "components": _COMPONENTS_AST,
+    },
     "C17": {
         "engine": "alias_hist",
         "level": "exploration",
@@ -105,6 +136,20 @@ CHECKS = {
 }
 
 MANIFEST_TEXT = {
+    "C05": {
+        "level_text": "Seeded and systematic request histories of several callers on one shared tree, each request compared "
+                      "with a single-copy reference (fresh parse); plus joint vs single CLI invocations.",
+        "design_ref": "DESIGN.md 3.C05",
+        "level_note": "Differential oracle, so libraries whose flattening fails are useful too; samples histories.",
+        "technique": "deterministic simulation: multi-caller request histories on shared state vs a single-copy reference model",
+    },
+    "C06": {
+        "level_text": "Seeded interleavings of deep copies and AST edits by the owners of the copies, checked against a "
+                      "replayed-edit-log reference model after every edit, on the edited tree and on another tree.",
+        "design_ref": "DESIGN.md 3.C06",
+        "level_note": "The reference never copies (fresh parse + the tree's own log); samples histories.",
+        "technique": "deterministic simulation: interleaved owner histories over replicas vs a replayed-log reference model",
+    },
     "C17": {
         "level_text": "Seeded operation histories over replicas of an AliasRelation checked after every step against a "
                       "signed union-find reference model; there is no fault dimension in this component, the simulated "
@@ -193,8 +238,6 @@ NOT_APPLICABLE = {
     "C24": _PURE + "SymPy source generation depends on the flat class only (its deep copy of the tree is C06).",
     "C25": _PURE + "XML generation depends on the flat class only (its deep copy of the tree is C06).",
     # claimed in DESIGN.md, engines not built yet: listed here until their checks are registered
-    "C05": "in-family engine (flatten_hist) designed in DESIGN.md but not built yet",
-    "C06": "in-family engine (copy_hist) designed in DESIGN.md but not built yet",
     "C26": "in-family engine (cli_faults) designed in DESIGN.md but not built yet",
     "C27": "in-family engine (lib_order) designed in DESIGN.md but not built yet",
 }
